@@ -55,6 +55,8 @@ type c17World struct {
 	shard      int
 	worldNo    int
 	altTx      *types.Transaction
+	chainLive  bool // the 3-link transitive delegation chain is on chain in this epoch
+	nondet     bool // the proposer's own re-executions of the final block disagreed
 	altNote    string
 }
 
@@ -80,7 +82,12 @@ func (c *c17World) evalOnCheck(r *Replica, b *types.Block, variant, pass string)
 	c.rep.Count("epoch_evaluations", 1)
 	c.rep.Count("variant_"+strings.SplitN(variant, "-", 2)[0]+"_"+pass, 1)
 	if err != nil {
-		c.rep.Violation("epoch-result-differs:"+variant+":"+pass+":"+ErrClass(err),
+		sig := "epoch-result-differs:" + variant + ":" + pass + ":" + ErrClass(err)
+		if c.chainLive {
+			sig = "epoch-result-order-dependent:transitive-delegation-chain"
+			c.nondet = true
+		}
+		c.rep.Violation(sig,
 			fmt.Sprintf("validation-finishing block %d built by the proposer is refused by %s (%s, %s evaluation): %v", b.Height(), r.Name, variant, pass, err),
 			map[string]interface{}{"block": DescribeBlock(b), "plan": c.sim.Plan.Describe(), "world": c.describe()})
 		return false
@@ -98,22 +105,50 @@ func (c *c17World) describe() map[string]interface{} {
 func (c *c17World) finalBlock(b *types.Block, p *Replica) {
 	w := c.w
 	c.rep.Progress("C17 world %d seed %d: final block %d of epoch %d", c.worldNo, w.Opt.Seed, b.Height(), c.sim.Plan.Epoch)
-	if os.Getenv("VERIF_C17_TALLY") != "" {
-		ok, bad := 0, 0
-		for i := 0; i < 400; i++ {
-			if _, _, err := p.Chain.VerifValidateOnCheck(b); err != nil {
-				bad++
-			} else {
-				ok++
-			}
-		}
-		fmt.Printf("TALLY height %d chain=%d: accepted %d refused %d\n", b.Height(), len(c.sim.Plan.Chain3), ok, bad)
+	// the proposer evaluated once while building (first pass); every further evaluation hits its
+	// cache. Same node, same block, same prior state: every evaluation must give the same verdict.
+	live := len(c.sim.Plan.Chain3) == 4
+	c.chainLive = live
+	n := c.K
+	if live {
+		n = 40
 	}
-	// the proposer evaluated once while building (first pass); every further evaluation hits its cache
-	for i := 0; i < c.K; i++ {
-		if !c.evalOnCheck(p, b, "proposer", "cached") {
-			break
+	acc, refd := 0, 0
+	var lastErr error
+	for i := 0; i < n; i++ {
+		p.enter()
+		c17MapOrderProbe(c.orders)
+		_, _, err := p.Chain.VerifValidateOnCheck(b)
+		c.rep.Eval(1)
+		c.rep.Count("epoch_evaluations", 1)
+		c.rep.Count("variant_proposer_cached", 1)
+		if err != nil {
+			refd++
+			lastErr = err
+		} else {
+			acc++
 		}
+	}
+	if refd > 0 {
+		cause := "no-known-cause"
+		if live {
+			cause = "transitive-delegation-chain"
+			c.rep.Count("order_dependence_observed_with_chain3", 1)
+		}
+		c.nondet = true
+		what := fmt.Sprintf("the proposer %s re-executed its own validation-finishing block %d (epoch %d) %d times on fresh check states of the same head: %d accepted, %d refused (%v)",
+			p.Name, b.Height(), c.sim.Plan.Epoch, n, acc, refd, lastErr)
+		if live {
+			ch := c.sim.Plan.Chain3
+			what += fmt.Sprintf("; delegation chain on chain before the lottery: %s(%s) -> %s(%s) -> %s -> %s, the first two not validated before this ceremony",
+				fmtAddr(ch[0]), stateNames[c.pre[ch[0]].State], fmtAddr(ch[1]), stateNames[c.pre[ch[1]].State], fmtAddr(ch[2]), fmtAddr(ch[3]))
+		}
+		if acc > 0 || live {
+			c.rep.Violation("epoch-result-order-dependent:"+cause, what, map[string]interface{}{"block": DescribeBlock(b), "plan": c.sim.Plan.Describe(), "world": c.describe(), "accepted": acc, "refused": refd})
+		} else {
+			c.rep.Violation("epoch-result-differs:proposer:cached:"+ErrClass(lastErr), what, map[string]interface{}{"block": DescribeBlock(b), "plan": c.sim.Plan.Describe(), "world": c.describe()})
+		}
+		return
 	}
 	for _, r := range w.Replicas {
 		if !r.Alive || r == p || r == c.fresh {
@@ -335,7 +370,7 @@ func (c *c17World) afterFinal(b *types.Block) {
 	}
 	rep.Count("real_status_changes", changes)
 	if len(pl.Chain3) == 4 {
-		rep.Count("real_transitive_chain3_epochs", 1)
+		rep.Count("real_transitive_chain3_epochs_survived", 1)
 		// both A and P newly validated in this epoch => the order-sensitive situation was live
 		a, p := c.pre[pl.Chain3[0]], c.pre[pl.Chain3[1]]
 		if !validatedState(a.State) && !validatedState(p.State) && validatedState(st.GetIdentity(pl.Chain3[0]).State) && validatedState(st.GetIdentity(pl.Chain3[1]).State) {
@@ -438,6 +473,7 @@ func TestVerifC17Real(t *testing.T) {
 		c.alt = mk(w.Nodes[0], "alt", "alt")
 		sim := NewCeremonySim(w, rng.Fork(1), rep)
 		c.sim = sim
+		sim.Debug = os.Getenv("VERIF_C17_DEBUG") != ""
 		for _, r := range c.restarters {
 			sim.Profiles[r] = &NetProfile{LossPct: 15, MaxDelay: 3}
 		}
@@ -458,7 +494,10 @@ func TestVerifC17Real(t *testing.T) {
 				if rr != nil {
 					v = c.variantOf(rr, res.Proposer)
 				}
-				if b.Header.Flags().HasFlag(types.ValidationFinished) {
+				if b.Header.Flags().HasFlag(types.ValidationFinished) && (c.nondet || c.chainLive) {
+					// already reported as order dependence of the epoch result: this refusal is a consequence
+					rep.Count("refusals_following_order_dependence", 1)
+				} else if b.Header.Flags().HasFlag(types.ValidationFinished) {
 					detail := ""
 					if (v == "alt" || v == "rival") && c.altNote != "" {
 						detail = " (the node had validated a competing proposal for the same height before: " + c.altNote + ")"
@@ -501,10 +540,23 @@ func TestVerifC17Real(t *testing.T) {
 			for i, r := range c.restarters {
 				c.rsPhase[r] = c17Phases[(shard+wn+e+2*i)%4]
 			}
-			sim.ForceChain3 = e%2 == 1 || shard%2 == 0
-			sim.NoChain = os.Getenv("VERIF_C17_NOCHAIN") != ""
-			c.pre = nil
+			// transitive delegation shapes: A->P->Q in about half of the epochs; the 3-link chain
+			// A->P->Q->R (whose outcome turned out to depend on map order, see spec) only in the
+			// last epoch of every second shard's world, because the world rarely survives it
+			sim.ChainLinks = 0
+			if e == nEpochs-1 && (shard+wn)%2 == 0 {
+				sim.ChainLinks = 3
+			} else if rng.Intn(2) == 0 {
+				sim.ChainLinks = 2
+			}
+			if os.Getenv("VERIF_C17_NOCHAIN") != "" && sim.ChainLinks == 3 {
+				sim.ChainLinks = 2
+			}
+			c.pre, c.nondet, c.chainLive = nil, false, false
 			b := sim.RunEpoch()
+			if sim.Plan != nil && len(sim.Plan.Chain3) == 4 {
+				rep.Count("real_transitive_chain3_epochs", 1)
+			}
 			if b == nil {
 				if !sim.Stopped {
 					rep.Note("world %d epoch %d did not finish", wn, e)
